@@ -138,6 +138,7 @@ class World:
             self.obs_frozen = set()  # servers an administrator froze (and nothing undid since)
             self.plain_down = set()  # servers the master saw lose their presence, untouched since
             self.untracked = set()   # servers deleted / created while watch delivery was deferred
+            self.admin_down = set()  # servers an administrator declared down (until up / re-registered)
             self.queues = []
             self.placement = None
             world = self
@@ -260,6 +261,7 @@ class World:
         if told:
             self.spells[s] = [sp_spell]
         getattr(self, 'plain_down', set()).discard(s)
+        self.admin_down.discard(s)
         data.update(doc)
         data['traits'] = list(sp.get('traits', []))
         data['up_since'] = int(self.v.time())
@@ -325,7 +327,9 @@ class World:
         # recorded in the placement node, or its own start)
         # (and only when the master learns of it now: with watch delivery deferred
         # it dates the loss from when it processes the event)
-        if self.master is not None and not getattr(self, 'deferred', False):
+        if (self.master is not None and not getattr(self, 'deferred', False)
+                and s not in self.admin_down):
+            # (a server an administrator already declared down has been down since then)
             self.obs_down[s] = self.v.ticks
             self.plain_down.add(s)
         self.obs_frozen.discard(s)      # the state record becomes "down"
@@ -351,6 +355,10 @@ class World:
     def ev_ServerState(self, s, state, apps):
         self.obs_down.pop(s, None)      # an administrator's word overrides the observer
         self.plain_down.discard(s)
+        if state == 'down':
+            self.admin_down.add(s)
+        else:
+            self.admin_down.discard(s)
         if (state == 'frozen' and self.master is not None and s in self.nodes
                 and not getattr(self, 'deferred', False)
                 and self.admin.exists(z.path.server(s))):
